@@ -601,6 +601,140 @@ Proof.
   - intros v [<- | [<- | []]]; unfold px, py; cbn [fst snd]; split; vm_compute; discriminate.
 Qed.
 
+(* ---------- C8. the cross-product membership test in the winding-number vocabulary of base/Winding.v:
+   strictly inside a parallelogram the winding number of the quad is +1 (positive orientation) or -1 ---------- *)
+Lemma pos_div D x r : 0 < D -> D * x = r -> (0 < r -> 0 < x) /\ (r < 0 -> x < 0).
+Proof. intros HD E. split; intros H; nia. Qed.
+
+Lemma one_upward D c0 c3 uy vy wy :
+  0 < D -> 0 < c0 < D -> 0 < c3 < D -> D * wy = c3 * uy + c0 * vy -> (uy <> 0 \/ vy <> 0) ->
+  (if (0 <=? wy) && (wy <? uy) then 1 else 0)
+  + (if (uy <=? wy) && (wy <? uy + vy) then 1 else 0)
+  + (if (uy + vy <=? wy) && (wy <? vy) then 1 else 0)
+  + (if (vy <=? wy) && (wy <? 0) then 1 else 0) = 1.
+Proof.
+  intros HD H0 H3 HI HN.
+  assert (P1 : 0 < D - c0) by lia. assert (P3 : 0 < D - c3) by lia.
+  destruct (pos_div D wy (c3 * uy + c0 * vy) HD HI) as [R0p R0n].
+  assert (E1 : D * (wy - uy) = - (D - c3) * uy + c0 * vy) by nia.
+  assert (E2 : D * (wy - uy - vy) = - (D - c3) * uy - (D - c0) * vy) by nia.
+  assert (E3 : D * (wy - vy) = c3 * uy - (D - c0) * vy) by nia.
+  destruct (pos_div D _ _ HD E1) as [R1p R1n].
+  destruct (pos_div D _ _ HD E2) as [R2p R2n].
+  destruct (pos_div D _ _ HD E3) as [R3p R3n].
+  assert (F : (0 < uy \/ uy = 0 \/ uy < 0) /\ (0 < vy \/ vy = 0 \/ vy < 0)) by lia.
+  destruct F as [[U | [U | U]] [V | [V | V]]];
+  try (assert (0 < c3 * uy + c0 * vy) by nia; specialize (R0p ltac:(assumption)));
+  try (assert (c3 * uy + c0 * vy < 0) by nia; specialize (R0n ltac:(assumption)));
+  try (assert (0 < - (D - c3) * uy + c0 * vy) by nia; specialize (R1p ltac:(assumption)));
+  try (assert (- (D - c3) * uy + c0 * vy < 0) by nia; specialize (R1n ltac:(assumption)));
+  try (assert (0 < - (D - c3) * uy - (D - c0) * vy) by nia; specialize (R2p ltac:(assumption)));
+  try (assert (- (D - c3) * uy - (D - c0) * vy < 0) by nia; specialize (R2n ltac:(assumption)));
+  try (assert (0 < c3 * uy - (D - c0) * vy) by nia; specialize (R3p ltac:(assumption)));
+  try (assert (c3 * uy - (D - c0) * vy < 0) by nia; specialize (R3n ltac:(assumption)));
+  try lia;
+  destruct (0 <=? wy) eqn:A1, (wy <? uy) eqn:A2, (uy <=? wy) eqn:A3, (wy <? uy + vy) eqn:A4,
+           (uy + vy <=? wy) eqn:A5, (wy <? vy) eqn:A6, (vy <=? wy) eqn:A7, (wy <? 0) eqn:A8; cbn [andb]; lia.
+Qed.
+
+Lemma edge_w_pos a b q : 0 < cross a b q ->
+  edge_w q (a, b) = if (py a <=? py q) && (py q <? py b) then 1 else 0.
+Proof.
+  intros H. unfold edge_w.
+  assert (E1 : (0 <? cross a b q) = true) by (apply Z.ltb_lt; exact H).
+  assert (E2 : (cross a b q <? 0) = false) by (apply Z.ltb_ge; lia).
+  rewrite E1, E2.
+  destruct ((py a <=? py q) && (py q <? py b)); [reflexivity|].
+  destruct ((py b <=? py q) && (py q <? py a)); reflexivity.
+Qed.
+
+Lemma wn_pgram_pos p0 p1 p2 p3 q :
+  padd p0 p2 = padd p1 p3 ->
+  0 < cross p0 p1 q -> 0 < cross p1 p2 q -> 0 < cross p2 p3 q -> 0 < cross p3 p0 q ->
+  wn [p0; p1; p2; p3] q = 1.
+Proof.
+  intros HP C0 C1 C2 C3.
+  unfold wn, wsum. cbn [cyc_edges app open_edges map zsum].
+  rewrite (edge_w_pos _ _ _ C0), (edge_w_pos _ _ _ C1), (edge_w_pos _ _ _ C2), (edge_w_pos _ _ _ C3).
+  destruct p0 as [x0 y0], p1 as [x1 y1], p2 as [x2 y2], p3 as [x3 y3], q as [qx qy].
+  unfold padd, px, py in HP; cbn [fst snd] in HP. injection HP as HX HY.
+  unfold cross, px, py in *; cbn [fst snd] in *.
+  assert (x2 = x1 + x3 - x0) by lia. assert (y2 = y1 + y3 - y0) by lia. subst x2 y2. clear HX HY.
+  set (uy := y1 - y0). set (vy := y3 - y0). set (wy := qy - y0).
+  set (c0 := (x1 - x0) * (qy - y1) - (y1 - y0) * (qx - x1)) in *.
+  set (c3 := (x0 - x3) * (qy - y0) - (y0 - y3) * (qx - x0)) in *.
+  set (c2 := (x3 - (x1 + x3 - x0)) * (qy - y3) - (y3 - (y1 + y3 - y0)) * (qx - x3)) in *.
+  set (c1 := (x1 + x3 - x0 - x1) * (qy - (y1 + y3 - y0)) - (y1 + y3 - y0 - y1) * (qx - (x1 + x3 - x0))) in *.
+  pose (D := (x1 - x0) * (y3 - y0) - (y1 - y0) * (x3 - x0)).
+  assert (HD0 : c0 + c2 = D) by (unfold c0, c2, D; ring).
+  assert (HD1 : c1 + c3 = D) by (unfold c1, c3, D; ring).
+  assert (HI : D * wy = c3 * uy + c0 * vy) by (unfold D, wy, c3, c0, uy, vy; ring).
+  assert (HN : uy <> 0 \/ vy <> 0).
+  { destruct (Z.eq_dec uy 0) as [Eu|Eu]; [|left; exact Eu]. destruct (Z.eq_dec vy 0) as [Ev|Ev]; [|right; exact Ev].
+    exfalso. unfold uy in Eu. unfold vy in Ev. assert (D = 0) by (unfold D; rewrite Eu, Ev; ring). lia. }
+  pose proof (one_upward D c0 c3 uy vy wy ltac:(lia) ltac:(lia) ltac:(lia) HI HN) as K.
+  replace (y0 <=? qy) with (0 <=? wy) by (unfold wy; lia).
+  replace (qy <? y1) with (wy <? uy) by (unfold wy, uy; lia).
+  replace (y1 <=? qy) with (uy <=? wy) by (unfold wy, uy; lia).
+  replace (qy <? y1 + y3 - y0) with (wy <? uy + vy) by (unfold wy, uy, vy; lia).
+  replace (y1 + y3 - y0 <=? qy) with (uy + vy <=? wy) by (unfold wy, uy, vy; lia).
+  replace (qy <? y3) with (wy <? vy) by (unfold wy, vy; lia).
+  replace (y3 <=? qy) with (vy <=? wy) by (unfold wy, vy; lia).
+  replace (qy <? y0) with (wy <? 0) by (unfold wy; lia).
+  lia.
+Qed.
+
+Lemma wn_pgram_neg p0 p1 p2 p3 q :
+  padd p0 p2 = padd p1 p3 ->
+  cross p0 p1 q < 0 -> cross p1 p2 q < 0 -> cross p2 p3 q < 0 -> cross p3 p0 q < 0 ->
+  wn [p0; p1; p2; p3] q = -1.
+Proof.
+  intros HP C0 C1 C2 C3.
+  assert (R : wn (rev [p0; p1; p2; p3]) q = 1).
+  { cbn [rev app]. apply wn_pgram_pos.
+    - destruct p0, p1, p2, p3; unfold padd, px, py in *; cbn [fst snd] in *. injection HP as HX HY. f_equal; lia.
+    - rewrite (cross_swap12 p2 p3 q). lia.
+    - rewrite (cross_swap12 p1 p2 q). lia.
+    - rewrite (cross_swap12 p0 p1 q). lia.
+    - rewrite (cross_swap12 p3 p0 q). lia. }
+  rewrite wn_rev in R. lia.
+Qed.
+
+Lemma para_pgram_scaled k s e f :
+  match map (pscale k) (para s e f) with
+  | [p0; p1; p2; p3] => padd p0 p2 = padd p1 p3
+  | _ => False
+  end.
+Proof.
+  destruct e as [a a'], f as [b b']. unfold para. cbn [fst snd map].
+  destruct s, a, a', b, b'; unfold mop, padd, psub, pscale, px, py; cbn [fst snd]; f_equal; ring.
+Qed.
+
+Theorem in_para_wn k s e f q :
+  in_para (map (pscale k) (para s e f)) q = true ->
+  wn (map (pscale k) (para s e f)) q = 1 \/ wn (map (pscale k) (para s e f)) q = -1.
+Proof.
+  pose proof (para_pgram_scaled k s e f) as HP.
+  destruct (map (pscale k) (para s e f)) as [|p0 [|p1 [|p2 [|p3 [|p4 l]]]]]; try contradiction.
+  cbn [in_para]. intros H. apply orb_true_iff in H. destruct H as [H | H].
+  - rewrite !andb_true_iff, !Z.ltb_lt in H. destruct H as [[[C0 C1] C2] C3].
+    left. apply wn_pgram_pos; assumption.
+  - rewrite !andb_true_iff, !Z.ltb_lt in H. destruct H as [[[C0 C1] C2] C3].
+    right. apply wn_pgram_neg; assumption.
+Qed.
+
+(* every point the membership test accepts has a non-zero winding number around one of the parallelograms *)
+Theorem in_some_wn_some k s c pat pth q :
+  in_some (scalek k (para_quads s c pat pth)) q = true ->
+  exists P, In P (para_quads s c pat pth) /\
+            (wn (map (pscale k) P) q = 1 \/ wn (map (pscale k) P) q = -1).
+Proof.
+  unfold in_some, scalek. rewrite existsb_exists. intros (P' & HP' & Hin).
+  apply in_map_iff in HP'. destruct HP' as (P & <- & HP).
+  exists P. split; [exact HP|].
+  apply in_para_quads in HP. destruct HP as (e & f & _ & _ & ->). apply in_para_wn. exact Hin.
+Qed.
+
 (* ---------- packaged statements used by props/Properties_C19.v ---------- *)
 Theorem minkowski_quads_spec pat pth s c :
   exists quads, minkowski pat pth s c = MOk quads
